@@ -184,6 +184,18 @@ def gen_cases(rnd, structs, n):
         cases.append(([S('i64')] * 5 + [two_int[0], S('i32')], None))
     if two_sse:
         cases.append(([S('f64')] * 7 + [two_sse[0], S('f64')], None))
+    # register boundaries, systematically: k leading scalars, then an aggregate that needs 1 or 2 registers of a class,
+    # with and without the hidden struct-return pointer taking an integer register
+    mem = [s for s in structs if classify(s) == 'MEMORY']
+    one_int_one_sse = [s for s in structs if classify(s) != 'MEMORY' and [k for k, _ in classify(s)] in (['INTEGER', 'SSE'], ['SSE', 'INTEGER'])]
+    rets = [None, S('i64')] + (mem[:1] if mem else [])
+    for ret in rets:
+        for agg in (two_int[:1] + one_int_one_sse[:1]):
+            for k in range(3, 7):
+                cases.append(([S('i64')] * k + [agg, S('i32')], ret))
+        for agg in two_sse[:1] + one_int_one_sse[:1]:
+            for k in range(6, 9):
+                cases.append(([S('f64')] * k + [agg], ret))
     return [Case(i, p, r) for i, (p, r) in enumerate(cases)]
 
 
